@@ -16,12 +16,13 @@ VIC_SNIPPETS = ['move "w"', 'cut "e"', 'cut name="k" "e"', "next", 'echo $line $
                 'if $x == 0 { cut "w" } else { move "h" }', 'for i in 1..3 { move "l" }', 'for c in "ab" { echo $c }', 'let a = [1, 2, 3]', 'echo $a[1]', 'while $x < 5 { x += 1 }',
                 'until $x > 7 { x += 2 }', 'repeat 2 { move "w" }', 'global "o" { cut "e" }', 'v "z"{ move "x" }', 'def f(n) { return $n }', 'f(2)', 'let y = f(3)', 'echo $word $char $pos',
                 'yank @a "txt"', 'move "\\"ap"', 'buf id', 'echo $lines $is_eof', 'let z = $x * 2 + 1', 'let q = 7 / 2', 'let m = 7 % 3', 'echo ($x > 1 && $x < 9)', 'break', 'continue',
+                'push $buffers "second\\nbuffer"', 'push $buffers ""', 'buf switch 1', 'buf switch 0', 'buf switch 7', 'pop $buffers', 'let old = pop $buffers', 'echo $buffers', 'buf switch $x',
                 'let n = -3', 'echo $undefined', 'pop $nothing', 'let big = 99999999999', 'let d = 1 / 0', 'move "${{x}}l"', 'echo "a${{s}}b"', 'return 1', 'include "nonexistent.vic"']
 
 
 # inputs that crashed or hung the pinned tree (each repaired by a fix: commit), plus the CRLF probe of the known finding
 CORPUS = [
-    (["include \"nonexistent.vic\""], ""), (["let n = -3\necho $n"], "a\n"), (["let d = 1 / 0"], ""), (["let d = 7 % 0"], ""),
+    (["include \"nonexistent.vic\""], ""), (["let n = -3\necho $n"], "a\n"), (["push $buffers \"b\"\nbuf switch 1\npop $buffers\necho $line\nmove \"w\""], "a b\n"), (["let d = 1 / 0"], ""), (["let d = 7 % 0"], ""),
     (["let x = 9223372036854775807\nx += 1"], ""), (["let x = 2 ** 70"], ""), (["opts { linewise }\necho $line $col"], "\nc"),
     (["opts { linewise }\necho \"x\""], "a\nc\nd\n"), (["-c", "<c-v>$"], "日本語 テキスト here\n混ぜる mixed 文字\n"), (["-c", "gg<c-v>iw"], ""),
     (["-c", "<c-v>jiw"], "foo bar\nbaz qux\n"), (["--cut", ":5,2"], "\nb\nc\nd"), (["-m", ":5,2d<CR>"], "a\nb\nc\nd\n"), (["-m", "rè"], "é\n"),
@@ -64,7 +65,21 @@ def gen_argv(rng):
     return None    # vic script
 
 
+BUF_OPS = ['push $buffers "two\\nlines"', 'push $buffers ""', 'push $buffers "é日"', 'buf switch 0', 'buf switch 1', 'buf switch 1', 'buf switch 2', 'buf switch 9', 'pop $buffers', 'pop $buffers',
+           'let old = pop $buffers', 'echo $buffers', 'move "w"', 'cut "e"', 'move "dd"', 'echo $line $col $word', 'move "G"', 'next', 'buf id', 'move "ix<esc>"']
+
+
+def gen_vic_buffers(rng):
+    """a script that works the buffer stack: push / switch / pop in any order, with editing and reading in between"""
+    body = "\n".join(rng.choice(BUF_OPS) for _ in range(rng.randint(3, 9)))
+    if rng.random() < 0.3:
+        body = "opts { " + rng.choice(["silent", "no_input", "json", "linewise"]) + " }\n" + body
+    return body
+
+
 def gen_vic(rng):
+    if rng.random() < 0.3:
+        return gen_vic_buffers(rng)
     n = rng.randint(1, 6)
     body = "\n".join(rng.choice(VIC_SNIPPETS) for _ in range(n))
     if rng.random() < 0.3:
